@@ -189,3 +189,21 @@ Fixpoint take_pad (k : nat) (l : list (list Z)) : list (list Z) :=
             end
   end.
 Definition expected_fast (text : list Z) (k : nat) : list (list Z) := take_pad k (split_lines text).
+
+(* Auxiliary notions used in the statements of Properties/C17.v. *)
+
+(* the text up to its first newline / after it *)
+Definition first_line (t : list Z) : list Z := ztake (index_of 10 t) t.
+Definition after_line (t : list Z) : list Z := zdrop (index_of 10 t + 1) t.
+
+(* the pieces joined with newlines *)
+Fixpoint join_nl (ls : list (list Z)) : list Z :=
+  match ls with
+  | [] => []
+  | [l] => l
+  | l :: ls' => l ++ 10 :: join_nl ls'
+  end.
+
+(* complete lines (each followed by a newline), then a remainder *)
+Definition unlines_with (ls : list (list Z)) (last : list Z) : list Z :=
+  concat (map (fun l => l ++ [10]) ls) ++ last.
